@@ -204,7 +204,7 @@ fn build_value(node: &Value, defs: &Value, hint: &str, n: u128, fill: bool, dept
             }
         }
         "integer" | "number" => {
-            let small = node.get("format").and_then(|f| f.as_str()).map(|f| f.contains("32") || f.contains("16") || f.contains("8")).unwrap_or(false);
+            let small = node.get("format").and_then(|f| f.as_str()).map(|f| ["uint8", "int8", "uint16", "int16", "uint32", "int32"].contains(&f)).unwrap_or(false);
             if small {
                 json!((n % 40 + 1) as u64)
             } else {
@@ -349,7 +349,7 @@ struct S {
     root16: String,
     proofs16: Vec<Vec<String>>,
     finding: Option<(String, String)>,
-    /// opt-in flags of the case header (`optin=cwl,tier,wlmut`): monitors for the reported-but-undecided behaviours
+    /// opt-in flags of the case header (`optin=cwl,cwld,tier,wlmut`, one flag per key): monitors for the reported-but-undecided behaviours
     optin: Vec<String>,
     // ---- ghost record: what the harness itself set through messages that were accepted
     g_fmin: C,
@@ -1057,12 +1057,12 @@ impl S {
                     }
                     // reported, undecided (docs/C07.md "Reported" 2): the whitelist named at creation is not compared with the floor.
                     // Raised only in cases whose header opts in.
-                    if let (Some(k), true) = (wl, self.opted("cwl")) {
+                    if let Some(k) = wl {
                         if let Some(g) = self.wls.get(k).cloned() {
-                            if let Some(s) = g.stages.iter().find(|s| s.0 < fmin.1) {
+                            if let (Some(s), true) = (g.stages.iter().find(|s| s.0 < fmin.1), self.opted("cwl")) {
                                 self.flag("create", "whitelist-below-floor", format!("minter created with whitelist {k} whose price {}:{} is below the factory minimum {}", g.denom, s.0, rc(&fmin)));
                             }
-                            if g.denom != fmin.0 {
+                            if g.denom != fmin.0 && self.opted("cwld") {
                                 self.flag("create", "whitelist-denom-differs-from-factory-min", format!("minter created with whitelist {k} priced in denom {} but the factory minimum is {}", g.denom, rc(&fmin)));
                             }
                         }
@@ -1535,6 +1535,9 @@ fn main() {
     let mut flags: Vec<&str> = vec![];
     if env_on("C07_OPTIN") || listed("create/whitelist-below-floor") {
         flags.push("cwl");
+    }
+    if env_on("C07_OPTIN") || listed("create/whitelist-denom-differs-from-factory-min") {
+        flags.push("cwld");
     }
     if env_on("C07_OPTIN") || listed("swl/tiered-stage-below-floor") {
         flags.push("tier");
@@ -2009,7 +2012,7 @@ fn main() {
         ses.note("governance min-price changes are generated only on factories whose minimum is in the native denom (sudo only accepts the native denom, so on other factories every change switches the denom — see docs/C07.md, C07_denom_switch_counterexample); set C07_DENOM_SWITCH=1 to include them");
     }
     if flags.is_empty() {
-        ses.note("the monitors */create/whitelist-below-floor, */swl/tiered-stage-below-floor, */wl*/attached-whitelist-price-below-floor are raised only in cases whose header opts in (corpus replays; C07_OPTIN=1; or once listed in known_findings.json)");
+        ses.note("the monitors */create/whitelist-below-floor, */create/whitelist-denom-differs-from-factory-min, */swl/tiered-stage-below-floor, */wl*/attached-whitelist-price-below-floor are raised only in cases whose header opts in (corpus replays; C07_OPTIN=1; or once listed in known_findings.json)");
     }
     if std::env::var("C07_DEBUG").is_ok() {
         for c in &ses.classes {
